@@ -11,15 +11,15 @@ From MQ Require Import Base.Prelude Alloc.Alloc Alloc.SetSpec Alloc.AllocProofs 
 Lemma sender_q0_x g c p : OWN g c -> ready c -> v311_pub p 0 ->
   match send_publish_v311 c p with
   | Ok (c1, e1) => sends e1 = [p] /\ notifies e1 = [] /\ errors e1 = [] /\ released e1 = [] /\
-                   OWN g c1 /\ ready c1 /\ c_auto_pub c1 = c_auto_pub c /\ F8 c1 c
+                   OWN g c1 /\ ready c1 /\ c_auto_pub c1 = c_auto_pub c /\ F8 c1 c /\ c_qos2 c1 = c_qos2 c
   | Panic _ => False
   end.
 Proof.
   intros HO [Rv Rs] (Ht & Hv & Hq). unfold send_publish_v311. cbv zeta. rewrite Hq. change (0 =? 0) with true. cbn [negb]. rewrite Rs. cbn [negb].
   pose proof (send_and_post_x c p None) as K. destruct (send_and_post c p None []) as [[c1 e]|]; [|exact K].
-  destruct K as (K1 & K2 & K3 & K4 & F & K5 & K6 & _).
+  destruct K as (K1 & K2 & K3 & K4 & F & K5 & K6 & K7).
   do 4 (split; [assumption|]). split; [exact (f8_own g c c1 F HO)|].
-  split; [apply (ready_f8 c1 c F K5); split; assumption|]. split; [exact K6|exact F].
+  split; [apply (ready_f8 c1 c F K5); split; assumption|]. split; [exact K6|]. split; [exact F|exact K7].
 Qed.
 
 Lemma receiver_q0_x g c p : ready c -> v311_pub p 0 ->
@@ -78,7 +78,7 @@ Fixpoint run_mixed (cs cr : conn) (ps : list pkt) : outcome :=
 (* a QoS 0 delivery never answers AppPre: it has no precondition on the application's side *)
 Theorem exchange0_ok cs cr p : pair_inv gs cs cr -> v311_pub p 0 ->
   match exchange0 cs cr p with
-  | Done cs' cr' d => d = [p] /\ pair_inv gs cs' cr' /\ F8 cs' cs /\ F8 cr' cr /\ c_qos2 cr' = c_qos2 cr
+  | Done cs' cr' d => d = [p] /\ pair_inv gs cs' cr' /\ F8 cs' cs /\ F8 cr' cr /\ c_qos2 cr' = c_qos2 cr /\ c_qos2 cs' = c_qos2 cs
   | _ => False
   end.
 Proof.
@@ -86,11 +86,11 @@ Proof.
   rewrite (step_send_publish_v311 gs cs p 0 (proj1 Rs) Hp).
   pose proof (sender_q0_x gs cs p HO Rs Hp) as H1.
   destruct (send_publish_v311 cs p) as [[cs1 e1]|]; cbn [bindr]; [|destruct H1].
-  destruct H1 as (S1 & N1 & X1 & L1 & O1 & R1 & A1 & F1). rewrite S1, N1, X1, L1. cbn [one none andb negb].
+  destruct H1 as (S1 & N1 & X1 & L1 & O1 & R1 & A1 & F1 & Qs1). rewrite S1, N1, X1, L1. cbn [one none andb negb].
   pose proof (receiver_q0_x gr cr p Rr Hp) as H2.
   destruct (deliver gr cr p) as [[cr1 e2]|]; [|destruct H2].
   destruct H2 as (N2 & S2 & X2 & L2 & Rr1 & Ar1 & Q1 & F2). rewrite N2, S2, X2, L2. cbn [one none andb].
-  split; [reflexivity|]. split; [|split; [exact F1|split; [exact F2|exact Q1]]].
+  split; [reflexivity|]. split; [|split; [exact F1|split; [exact F2|split; [exact Q1|exact Qs1]]]].
   split; [exact O1|]. split; [exact R1|]. split; [congruence|]. split; [exact Rr1|]. split; [congruence|]. rewrite Q1. exact Hasc.
 Qed.
 
@@ -133,15 +133,15 @@ Qed.
    store, the awaited sets and the receiver's handled identifiers of both endpoints exactly as they were: at most once by
    construction, since there is nothing either side could retransmit from *)
 Theorem run_mixed_qos0_only : forall ps cs cr, pair_inv gs cs cr -> Forall (fun p => v311_pub p 0) ps ->
-  exists cs' cr', run_mixed cs cr ps = Done cs' cr' ps /\ pair_inv gs cs' cr' /\ F8 cs' cs /\ F8 cr' cr /\ c_qos2 cr' = c_qos2 cr.
+  exists cs' cr', run_mixed cs cr ps = Done cs' cr' ps /\ pair_inv gs cs' cr' /\ F8 cs' cs /\ F8 cr' cr /\ c_qos2 cr' = c_qos2 cr /\ c_qos2 cs' = c_qos2 cs.
 Proof.
   induction ps as [|p t IH]; intros cs cr Hi Hf; cbn [run_mixed].
-  - exists cs, cr. split; [reflexivity|]. split; [exact Hi|]. split; [apply f8_refl|]. split; [apply f8_refl|reflexivity].
+  - exists cs, cr. split; [reflexivity|]. split; [exact Hi|]. split; [apply f8_refl|]. split; [apply f8_refl|]. split; reflexivity.
   - inversion Hf as [|? ? Hp Ht]; subst. unfold exchange_any. destruct Hp as (Ht0 & Hv & Hq). rewrite Hq. change (0 =? 0) with true. cbv iota.
     pose proof (exchange0_ok cs cr p Hi (conj Ht0 (conj Hv Hq))) as H.
-    destruct (exchange0 cs cr p) as [cs1 cr1 d| |]; [|destruct H|destruct H]. destruct H as (-> & Hi1 & F1 & F2 & Q1).
-    destruct (IH cs1 cr1 Hi1 Ht) as (cs' & cr' & E & Hi' & F1' & F2' & Q').
+    destruct (exchange0 cs cr p) as [cs1 cr1 d| |]; [|destruct H|destruct H]. destruct H as (-> & Hi1 & F1 & F2 & Q1 & Q1s).
+    destruct (IH cs1 cr1 Hi1 Ht) as (cs' & cr' & E & Hi' & F1' & F2' & Q' & Q's).
     rewrite E. exists cs', cr'. split; [reflexivity|]. split; [exact Hi'|].
-    split; [exact (f8_trans _ _ _ F1' F1)|]. split; [exact (f8_trans _ _ _ F2' F2)|congruence].
+    split; [exact (f8_trans _ _ _ F1' F1)|]. split; [exact (f8_trans _ _ _ F2' F2)|]. split; congruence.
 Qed.
 End Mixed.
